@@ -517,6 +517,11 @@ func causeChainOK(pv interface{}) string {
 		if !strings.HasSuffix(t.PkgPath(), "/erro") {
 			return fmt.Sprintf("cause chain ends in untyped %T", last)
 		}
+		if t.Name() == "TraceableError" {
+			// the generic carrier (message + stack) is not a typed cause: the chain must end in one of the
+			// specific error types (IllegalParam, IllegalParamType, ArgsNotMatch, ...)
+			return fmt.Sprintf("cause chain ends in the generic %T without reaching a typed cause", last)
+		}
 	}
 	return ""
 }
